@@ -180,6 +180,8 @@ class Gen:
 
     def step(self, allow_life):
         rng = self.rng
+        if not self.live:
+            self.open(rng.choice([0, 1, 2, 3]))
         j = rng.choice(self.live)
         f = self.fid[j]
         if allow_life and self.lifecycle and f != 0 and rng.random() < 0.12:
@@ -205,7 +207,9 @@ class Gen:
             if f not in self.dirs:
                 self.fid[j] = f2
             elif f2 in self.dirs:
-                pass  # DestinationExistsError
+                # DestinationExistsError; the job object is left with the new state point in memory (C04's
+                # business: a later init() through it writes a state point that does not match its id) - not used again
+                self.live.remove(j)
             else:
                 self.dirs.discard(f)
                 self.dirs.add(f2)
@@ -493,7 +497,7 @@ def do_op(doc, path, op, rng_attr):
         t = t[p]
     k = op[0]
     if k == "get":
-        return t()
+        return t() if hasattr(t, "_to_base") else t      # d[p] of a scalar is the scalar
     if k == "set":
         key = op[1]
         if rng_attr and key.isidentifier() and not key.startswith("_") and hasattr(t, "_PROTECTED_KEYS") and key not in t._PROTECTED_KEYS:
